@@ -1357,7 +1357,16 @@ def c16(res, wd):
     rng = random.Random(res.seed * 1000 + 160)
     nm, frames = sizes(res.tier, (12, 200), (80, 800))
     ps = [plans.misuse(rng, frames) for _ in range(nm)]
-    engines.obs_runs(res, "C16", ps, {"C16", "C01", "C03", "C02"}, wd, "c16", nontrivial=lambda st, pl: st["ticks"] >= 100)
+    # sessions with a remote player AND a spectator whose handshakes finish at different times under loss: advancing
+    # is an error until every remote - players and spectators - has completed its handshake (C12's predicate)
+    for _ in range(sizes(res.tier, 6, 24)):
+        q = plans.general(rng, 120, npeers=2, spectators=rng.choice([1, 2]))
+        q["p_misuse"] = 0.1
+        q["cfg"]["inputs_by_frame"] = 4
+        q["loss"] = rng.choice([0.1, 0.3])
+        q["lat_hi"] = q["lat_lo"] + rng.choice([30, 80])
+        ps.append(q)
+    engines.obs_runs(res, "C16", ps, {"C16", "C01", "C03", "C02", "C12"}, wd, "c16", nontrivial=lambda st, pl: st["ticks"] >= 100)
     # SyncTestSession misuse: unknown handles, advance_frame with inputs missing (they stay registered for the
     # next call); judged by the monitor and replayed through SyncTest.tla (results of every add/advance compared)
     sps = []
